@@ -206,8 +206,6 @@ def run(ctx):
         g2 = [row[:] for row in g]
         if not header or len(g2) < 2:
             g2 = [[("text" if c == "dup" else c) for c in row] for row in g2]
-        if header and len(g2) < 2:
-            header = False
         jobs.append((k, g2, header, reverse, rng.random() < 0.3, ctx.seed * 11 + k, ctx.scratch))
         k += 1
     # larger shapes: tile an abstract grid to 1..40 x 1..12
@@ -215,10 +213,14 @@ def run(ctx):
         (g, header, reverse) = rng.choice(grids)
         nr, nc = rng.randint(1, 40), rng.randint(1, 12)
         big = [[("text" if g[i % len(g)][j % len(g[0])] == "dup" else g[i % len(g)][j % len(g[0])]) for j in range(nc)] for i in range(nr)]
-        if nr < 2:
-            header = False
         jobs.append((k, big, header, reverse, rng.random() < 0.3, ctx.seed * 11 + k, ctx.scratch))
         k += 1
+    # the smallest shapes in every option combination: a header line only, one data row, one column
+    for (nr, nc) in ((1, 1), (1, 4), (2, 1), (1, 12), (2, 12)):
+        for header in (True, False):
+            for reverse in (False, True):
+                jobs.append((k, [["text"] * nc for _ in range(nr)], header, reverse, False, ctx.seed * 11 + k, ctx.scratch))
+                k += 1
     ctx.stage("convert")
     events = fixtures.pmap(run_case, jobs, ctx.workers, chunksize=4)
     ctx.evaluations += len(events)
